@@ -267,4 +267,4 @@ def check(ctx):
     r4_stage_template(ctx)
 
 
-CLAUSE += '; a list of component ids is never handed to an unstable sort in the pipeline builders'
+CLAUSE += ' Also: a list of component ids is never handed to an unstable sort in the pipeline builders.'
